@@ -12,8 +12,8 @@ claimed = {
              ref="DESIGN.md §6 C12"),
 }
 claimed.update({
- "C02": dict(text="Deductive proof of cedar.Authorize against the decision rule of the property (default deny, forbid overrides, erroring policies skipped; reasons and errors as sets with their positions), by loop invariants over an arbitrarily ordered enumeration of the policy collection; PolicySet.IsAuthorized is proved to be Authorize on the set's contents.",
-             note="'satisfied' is defined through the compiled BoolEvaler of the policy (link to the AST semantics is C01/C04). Policy ids yielded by a user iterator are assumed distinct. Trusted: Go map range semantics, iterator shape check (iter-canonical).",
+ "C02": dict(text="Deductive proof of cedar.Authorize against the decision rule of the property (default deny, forbid overrides, erroring policies skipped; reasons and errors as sets with their positions), by loop invariants over an arbitrarily ordered enumeration of the policy collection; PolicySet.IsAuthorized is proved to be Authorize on the set's contents. The link from a policy to 'satisfied' is under contract as well: Compile runs ToEval(PolicyToNode(foldPolicy p)), PolicyToNode is the right-nested conjunction of the scope tests and the conditions in order, and ten lemmas state when that expression is satisfied (every conjunct; when: body true; unless: body false; scope ==, in, in-set, is, is-in against the request part).",
+             note="The induction along the conjunction that combines the step lemmas is applied outside the solver; folding (C04) is what lets the lemmas speak about the unfolded expression. Policy ids yielded by a user iterator are assumed distinct. Trusted: Go map range semantics, iterator shape check (iter-canonical).",
              ref="DESIGN.md §6 C02"),
  "C20": dict(text="Deductive proof, per operation, that PolicySet behaves as the id->policy map p.policies (New, Get, Add, Remove, Map, All, IsAuthorized, UnmarshalJSON, MarshalCedar's sorted id list): refinement of a map model for every pre-state, hence for every finite history; loading a document (NewPolicySetFromBytes) assigns exactly the ids policy0..policy(n-1) in document order to the parsed list and NewPolicyListFromBytes sets the given file name in every policy's position.",
              note="The zero PolicySet{} (nil map) is excluded by precondition of Add. Assumed: the decimal rendering of distinct non-negative integers is distinct (policyN injective); PolicyList.UnmarshalCedar returns non-nil policies (trusted: the parser's functional behaviour is not under contract). Copy semantics between a PolicySet and the maps handed out are covered by the C19 frame/no-leak proofs.",
